@@ -171,10 +171,35 @@ func ConstInt(info *types.Info, e ast.Expr) (int64, bool) {
 	return i, exact
 }
 
+// Alias maps a local variable that is defined exactly once, never reassigned and never has its address taken to its
+// defining expression, when that expression is pure and reads only values that cannot change between the definition
+// and any use (constants, other such locals and unassigned parameters, range variables, fields of the incoming
+// *irc.Message that the function never writes, calls of pure string functions). It is filled once per loaded program
+// (rules.computeAliases). Same and Expand see through these names, so that introducing or inlining such a local
+// does not change what a rule sees.
+var Alias = map[types.Object]ast.Expr{}
+
+// Expand replaces an identifier that names a stable pure local by its defining expression (transitively).
+func Expand(info *types.Info, e ast.Expr) ast.Expr {
+	e = ast.Unparen(e)
+	for i := 0; i < 8 && e != nil; i++ {
+		id, ok := e.(*ast.Ident)
+		if !ok {
+			break
+		}
+		d, ok := Alias[Obj(info, id)]
+		if !ok || d == nil {
+			break
+		}
+		e = ast.Unparen(d)
+	}
+	return e
+}
+
 // Same reports structural equality of two expressions with identifiers
 // resolved to objects and constants compared by value.
 func Same(info *types.Info, a, b ast.Expr) bool {
-	a, b = ast.Unparen(a), ast.Unparen(b)
+	a, b = Expand(info, a), Expand(info, b)
 	if a == nil || b == nil {
 		return a == b
 	}
